@@ -24,7 +24,7 @@ import itertools
 from .core import import_repo, VClock, install_clock, MachineryError
 
 ROOT = 10          # name code of the sync root folder on either side
-NAMES = {1: "a", 2: "b", 3: "d", 4: "e", 5: "A", 6: "f", 10: None, 11: "other", 12: None}
+NAMES = {1: "a", 2: "b", 3: "d", 4: "e", 5: "A", 6: "f", 7: "D", 10: None, 11: "other", 12: None}
 DIR = 0
 UNKNOWN_CONTENT = 9999
 
@@ -38,6 +38,7 @@ FLAVORS = {
     "path/path": ((True, True, False), (True, True, False)),
     "oidci/oid": ((False, False, False), (False, True, False)),
     "path/oidci": ((True, True, False), (False, False, False)),
+    "pathci/oid": ((True, False, False), (False, True, False)),
 }
 
 
